@@ -118,3 +118,29 @@ Qed.
 Theorem semi_split_join ps : ps <> [] -> Forall (fun p => mem_char ";"%char p = false) ps ->
   simple (join_semi ps) -> semi_split (join_semi ps) = ps.
 Proof. intros NE F S. rewrite (semi_split_simple _ S). now apply split_plain_join. Qed.
+
+(* ---- cutting at ';' never loses a character: whatever the text and whatever is masked, the pieces joined with ';'
+        are the text *)
+Lemma split_at_semis_ne t : forall mq mp cur, split_at_semis t mq mp cur <> [].
+Proof.
+  induction t as [|c r IH]; intros mq mp cur; cbn [split_at_semis]; [discriminate|].
+  destruct (aeqb c ";"%char && negb match mq with b :: _ => b | [] => false end
+            && negb match mp with b :: _ => b | [] => false end); [discriminate|apply IH].
+Qed.
+
+Lemma join_semi_cons p r : r <> [] -> join_semi (p :: r) = p ++ ";"%char :: join_semi r.
+Proof. destruct r; [contradiction|reflexivity]. Qed.
+
+Lemma split_at_semis_lossless t : forall mq mp cur, join_semi (split_at_semis t mq mp cur) = rev cur ++ t.
+Proof.
+  induction t as [|c r IH]; intros mq mp cur; cbn [split_at_semis].
+  - cbn [join_semi]. now rewrite app_nil_r.
+  - destruct (aeqb c ";"%char && negb match mq with b :: _ => b | [] => false end
+              && negb match mp with b :: _ => b | [] => false end) eqn:E.
+    + rewrite join_semi_cons by apply split_at_semis_ne. rewrite IH. cbn [rev app].
+      apply andb_true_iff in E as [E _]. apply andb_true_iff in E as [E _]. unfold aeqb in E. apply Ascii.eqb_eq in E. subst. reflexivity.
+    + rewrite IH. cbn [rev]. now rewrite <- app_assoc.
+Qed.
+
+Theorem semi_split_lossless t : join_semi (semi_split t) = t.
+Proof. unfold semi_split. apply (split_at_semis_lossless t _ _ []). Qed.
